@@ -108,7 +108,8 @@ Definition p_advance (cx : pctx) (st : pstate) (error : bool) : res pstate :=
   | Panic w => Panic w
   | Ok s =>
     let c1 := c_advance (cstd s) (cur s) false in
-    let g1 := gstep s (BAdvance (cur s) false) in
+    (* consuming the end-of-input marker is recorded as a discipline violation *)
+    let g1 := if pos s <? length (toks cx) then gstep s (BAdvance (cur s) false) else None in
     match skip_loop cx (length (toks cx)) (S (pos s)) c1 g1 with
     | (p', t', c', g') =>
       Ok (mkSt c' p' t' (err_node s) (in_choice s) (esa s) (diags s) (log s) g' (snaps s))
@@ -125,6 +126,7 @@ Definition p_init_skip (cx : pctx) (st : pstate) : pstate :=
 (* fn advance_with_error(&mut self, diags, diag) *)
 Definition p_advance_with_error (cx : pctx) (st : pstate) (m : msgid) : res pstate :=
   let s1 := p_error st (mk_diag cx st m) in
+  if length (toks cx) <=? pos s1 then Ok s1 else
   let s2 :=
     match err_node s1 with
     | Some _ => s1
